@@ -654,6 +654,16 @@ def rule_r9(ctx) -> List[R.Inst]:
     return [R.ok(rid, "one-per-change", file, loops[0].lineno, idiom="1 initial entry + exactly one append per consecutive pair")]
 
 
+def rule_dep(ctx):
+    """obligations inherited from shared code the timing operations reach (list accessors under BpmList.to_timing_map,
+    hidden state, copy hooks); the timing group itself is decided by the rules above"""
+    from .deps import dep_insts
+    entries = [T.TIMINGMAP + "." + m for m in ("offsets", "snaps", "beats", "from_bpm_changes_offset", "from_bpm_changes_snap")] + \
+              ["reamber.base.lists.BpmList.BpmList.to_timing_map", SNAPPER + ".snap", SNAPPER + ".__init__",
+               SNAP + ".from_offset", SNAP + ".offset"]
+    return dep_insts(ctx, "C10", entries, skip_groups=("timing",))
+
+
 SPECS = [
     RuleSpec("C10.R1", rule_r1, 5, "A6", "results are returned in query order (permutation algebra); descending sweep for a decrementing cursor"),
     RuleSpec("C10.R2", rule_r2, 2, "A5", "tempo changes are sorted by the integration key before consecutive pairing"),
@@ -663,6 +673,7 @@ SPECS = [
     RuleSpec("C10.R7", rule_r7, 1, "A5", "a list's timing map has one change per tempo row, fields from the same row"),
     RuleSpec("C10.R8", rule_r8, 24, "A7", "RAConst unit helpers: exact scaling named by the function, python float result"),
     RuleSpec("C10.R9", rule_r9, 1, "A8", "one position entry per tempo change (parallel lists)"),
+    RuleSpec("C10.D", rule_dep, 1, "M0", "rules of the shared code (list classes and their generated accessors, hidden state) that the timing operations reach"),
     RuleSpec("C10.R6", rule_r6, 6, "A3", "snapping and the position/time conversions write no hidden state"),
 ]
 
